@@ -26,6 +26,9 @@ class Unsupported(Exception):
     pass
 
 
+NAMED_CONST_HOOKS = []     # functions (executor, const path) -> value or None; the intrinsics register models of associated constants here
+
+
 class PathEnd(Exception):
     def __init__(self, kind, val):
         self.kind = kind    # 'panic'
@@ -690,6 +693,13 @@ class Exec:
                 if tgt:
                     f = self.find_impl("from", "From", base_name(tgt.group(1)))
             if f is not None:
+                # std's forwarding impls (`impl<W: Write> Write for &mut W`, `impl<R: Read> Read for &mut R`, ...): a receiver that is a
+                # reference to a reference is peeled down to one reference before the crate's impl on the underlying type runs
+                if args and f.params and f.params[0][1].startswith("&") and isinstance(args[0], Ref):
+                    a0 = args[0]
+                    while isinstance(a0, Ref) and isinstance(self.read_ref(a0), Ref):
+                        a0 = self.read_ref(a0)
+                    args = [a0] + list(args[1:])
                 return self.call_fn(f, args)
         else:
             parts = name.split("::")
@@ -822,7 +832,9 @@ class Exec:
                 f = self.find_impl(pm.group(3), base_name(pm.group(2)), base_name(pm.group(1)))
                 if f is not None:
                     cands = self.funcs.get(f.name + "::" + pm.group(4))
-            segs = strip_generics(name).split("::") if not cands else []
+            # `f::<impl Trait>::promoted[0]`: the `impl Trait` argument of the enclosing function is not part of the const's own name
+            name_np = re.sub(r"::<impl [^<>]*>(?=::(?:promoted\[|[A-Z][A-Z_0-9]*$))", "", name)
+            segs = strip_generics(name_np).split("::") if not cands else []
             if len(segs) >= 3 and not name.startswith("<"):
                 f = self.find_impl(segs[-2], None, segs[-3])
                 if f is not None:
@@ -841,6 +853,10 @@ class Exec:
             m = re.fullmatch(r"Option::<.*>::None", name)
             if m:
                 return NONE
+            for hook in NAMED_CONST_HOOKS:
+                hv = hook(self, name)
+                if hv is not None:
+                    return hv
             return Opaque("const:" + name)
         v = self.call_fn(cands[0], [])
         self.promoted_cache[name] = v
